@@ -1209,7 +1209,7 @@ class CodeBuilder:
         could_be_none = (
             ftype in (typing.Any, type(None), None)
             or is_type_var_any(self.get_real_type(fname, ftype))
-            or is_optional(ftype, self.get_field_resolved_type_params(fname))
+            or is_optional(self.get_real_type(fname, ftype))
             or self.get_field_default(fname) is None
         )
         value = "value" if could_be_none or force_value else f"self.{fname}"
@@ -1366,9 +1366,7 @@ class FieldUnpackerCodeBlockBuilder:
         could_be_none = (
             ftype in (typing.Any, type(None), None)
             or is_type_var_any(self.parent.get_real_type(fname, ftype))
-            or is_optional(
-                ftype, self.parent.get_field_resolved_type_params(fname)
-            )
+            or is_optional(self.parent.get_real_type(fname, ftype))
             or default is None
         )
         unpacked_value = UnpackerRegistry.get(
